@@ -87,6 +87,10 @@ func (l *Layouter) Layout(s string) []glyph.Info {
 	font := l.font
 	for i := range seq {
 		gid := seq[i].GID
+		if int(gid) >= font.NumGlyphs() {
+			// a substitution to a glyph which does not exist in the font
+			continue
+		}
 		if !font.Gdef.IsMark(gid) {
 			seq[i].Advance = funit.Int16(font.GlyphWidth(gid)) // TODO(voss)
 		}
